@@ -81,7 +81,8 @@ KeyFieldVals ==
      material |-> {"jwk", "b58", "both", "none"},
      jwk      |-> JwkVals,
      pp       |-> PPVals,
-     extra    |-> {"none", "controller", "foo", "publicKeyMultibase"}]
+     \* (*_null: the member is there and its value is null - a member all the same)
+     extra    |-> {"none", "controller", "foo", "publicKeyMultibase", "foo_null", "controller_null", "other_material_null", "purposes_null"}]
 
 -----------------------------------------------------------------------------
 (* services *)
